@@ -58,7 +58,10 @@ def check(rep, tier, seed):
     # builder corner cases
     cases += ["sites a,b EMPTY - 0/1,0/0", "sites a,b a:A,x:B - 0/1,0/0", "sites a,b x:A,y:B - 0/1,0/0",
               "sites a,b a:A,a:A - 0/1,0/0", "sites a,b,c a:A,b:B,a:B - 0/1,0/0,1/1", "sites a,b,c a:A,b:A,a:A - 0/1,0/0,1/1",
-              "sites a,b a:-,b:- - 0/1,1/1", "sites a,b a:-,b:A - 0/1,1/1", "sites a,b b:A,a:- - 0/1,1/1"]
+              "sites a,b a:-,b:- - 0/1,1/1", "sites a,b a:-,b:A - 0/1,1/1", "sites a,b b:A,a:- - 0/1,1/1",
+              # the same builder errors with a projection requested (shape or individuals), in every position of the list
+              "sites a,b a:A,x:B s:3,3 0/1,0/0", "sites a,b x:A,a:B i:1,1 0/1,0/0", "sites a,b a:A,x:A s:3 0/1,0/0", "sites a,b EMPTY s:3 0/1,0/0",
+              "sites a,b ghost:- i:1 0/1,0/0", "sites a,b,c a:A,b:B,ghost:B s:3,3 0/1,0/0,1/1", "sites a,b a:A,a:B s:3,3 0/1,0/0"]
     compare_cases(rep, "sample-map", cases, nontrivial=lambda c, m: m.startswith("SHAPE=") and "," in m.split()[0],
                   classify=lambda c, m, i: "axes:" + ("panic" if "PANIC" in i or "PANIC" in m else "site-reader"), spec=True)
 
@@ -125,7 +128,13 @@ def check(rep, tier, seed):
             pass
     # errors on the binary
     ejobs = [(["create", "-s", "nosuch"], render_vcf(["a", "b"], [["0/1", "0/0"]])),
-             (["create", "-s", "a=A,zzz=B"], render_vcf(["a", "b"], [["0/1", "0/0"]]))]
+             (["create", "-s", "a=A,zzz=B"], render_vcf(["a", "b"], [["0/1", "0/0"]])),
+             (["create", "-s", "a=A,zzz=B", "-p", "1,1"], render_vcf(["a", "b"], [["0/1", "0/0"]])),
+             (["create", "-s", "a,zzz", "--project-shape", "3"], render_vcf(["a", "b"], [["0/1", "0/0"]])),
+             (["create", "-s", "zzz,a", "-p", "1"], render_vcf(["a", "b"], [["0/1", "0/0"]]))]
+    gpath = os.path.join(WORK, "c09_ghost.txt"); open(gpath, "wb").write(b"a\tA\nghost\tA\n")
+    ejobs.append((["create", "-S", gpath, "-p", "1"], render_vcf(["a", "b"], [["0/1", "0/0"]])))
+    ejobs.append((["create", "-S", gpath], render_vcf(["a", "b"], [["0/1", "0/0"]])))
     epath = os.path.join(WORK, "c09_empty.txt"); open(epath, "wb").write(b"")
     ejobs.append((["create", "-S", epath], render_vcf(["a", "b"], [["0/1", "0/0"]])))
     for job, (rc, so, se) in zip(ejobs, run_cli_many(ejobs)):
